@@ -95,6 +95,7 @@ def build():
     ensures={
       "only_referring_rows": "forall(r, r in result, exists(t, t in input_rows, refs(self, r, t)))",
       "every_referring_row": "forall(r, t, t in input_rows and refs(self, r, t), r in result)",
+      "index_untouched": "forall(r, t, True, refs(self, r, t) == refs(old(self), r, t))",
     }, defs=view,
     notes="input_rows is a set of target rows (the call from doBulkRemoveRecord); the iteration "
           "order is the ghost sequence __iterated__"))
